@@ -582,6 +582,21 @@ def case_clip(rng, k, variant, exhaustive_w=None):
     return c
 
 
+def case_clip_sweep(rng, k, variant, vals, W, H):
+    """every combination of boundary coordinates as an update request on a tiny screen (ties the
+    hand-written mirror of rectSwapIfLEAndClip to the code exhaustively over the boundary grid)"""
+    cfg = rand_cfg(rng, variant)
+    cfg.update(w=W, h=H, pw=0, view=0)
+    c = Case(k, "clipsweep", cfg)
+    items = handshake_msgs(rng, cfg, minor=8)
+    blob = b"".join(m_fur(1, x, y, w, h) for x in vals for y in vals for w in vals for h in vals)
+    emit_stream(rng, c, items + [blob], "one")
+    c.op("connect A pre")
+    c.op("run A")
+    c.op("witness")
+    return c
+
+
 def case_garbage(rng, k, variant):
     """random bytes after a valid handshake (and sometimes instead of it)"""
     cfg = rand_cfg(rng, variant)
@@ -721,6 +736,10 @@ def gen_cases(ctx, variant):
             (case_scale_update, 160 if quick else 2500), (case_clip, 80 if quick else 1200),
             (case_garbage, 100 if quick else 1500), (case_unmodelled, 40 if quick else 600),
             (case_ws, 60 if quick else 800)]
+    sweep_vals = [0, 1, 2, 3, 65534, 65535] if quick else [0, 1, 2, 3, 4, 5, 255, 256, 32767, 32768, 65531, 65533, 65534, 65535]
+    for (W, H) in ([(3, 2)] if quick else [(3, 2), (2, 3), (1, 1), (4, 4)]):
+        cases.append(case_clip_sweep(rng, k, variant, sweep_vals, W, H).render())
+        k += 1
     for fn, n in plan:
         for _ in range(n):
             if fn is case_session:
@@ -945,8 +964,12 @@ def check(ctx):
         "floating-point scaling (rfbScaledCorrection, ScaleX/Y), zlib inflate and the password check are parameters of the model "
         "(Section variables); the theorems hold for every behaviour of them",
         "TLS, WebSocket framing, HTTP and the TightVNC file-transfer extension are outside this model (C09/C20/C19)",
-        "16-bpp server formats and everything after the reads of an UltraVNC file-transfer message are run under the sanitizers "
-        "and the oracle only (no model comparison)"]
+        "16-bpp server formats, WebSocket connections and everything after the reads of an UltraVNC file-transfer message are run "
+        "under the sanitizers and the oracle only (no model comparison)",
+        "C04_no_div_zero_partial assumes fpu_ok: the doubles of rfbScaledCorrection map a rectangle inside the source screen to a "
+        "corner inside the target screen and non-negative extents (C17 studies that arithmetic)",
+        "updates are compared only when exactly one non-empty (or zero-width) rectangle is requested; other request sets are left "
+        "to the region/update models (C11, C02)"]
 
     def run_one(lines, model=True):
         (r1, co, ce), (r2, mo, me) = run_pair(ctx, [lines], cexe, mexe, model)
